@@ -44,6 +44,71 @@ def side_effecting_mappings():
             "assumptions": ["D contains only mappings read without side effects; defaultdict is probed separately (bounded)"]}
 
 
+def extra_out_dumpers():
+    """Dumpers with `extra_out` (extractor / target field) are outside the symbolic dumper family (`{**result, **extra}` over a
+    symbolic mapping): bounded native probe — for every subset of omitted fields the dump is a NEW mapping holding exactly the
+    emitted fields plus the extras, never the mapping kept inside the object or returned by the extractor."""
+    from dataclasses import dataclass, field
+    from typing import Any, Dict
+
+    from adaptix import DebugTrail, Retort, name_mapping
+
+    @dataclass
+    class M:
+        a: int = 1
+        b: str = "x"
+        extra: Any = field(default_factory=dict)
+
+    @dataclass
+    class MD:
+        a: int = 1
+        b: str = "x"
+        extra: Dict[str, int] = field(default_factory=dict)
+    viol, n = [], 0
+
+    def extractor(obj):
+        return obj.extra
+    configs = {
+        "extractor+omit": (M, dict(omit_default=True, extra_out=extractor, skip=["extra"])),
+        "extractor": (M, dict(extra_out=extractor, skip=["extra"])),
+        "target-any+omit": (M, dict(omit_default=True, extra_out="extra")),
+        "target-dict+omit": (MD, dict(omit_default=True, extra_out="extra")),
+        "extractor+skip-all": (M, dict(extra_out=extractor, skip=["a", "b", "extra"])),
+    }
+    for (cname, (cls, kw)), dt in itertools.product(configs.items(), DebugTrail):
+        dumper = Retort(recipe=[name_mapping(cls, **kw)], debug_trail=dt).get_dumper(cls)
+        for a, b, extra in itertools.product((1, 2), ("x", "y"), ({}, {"k": 1})):
+            n += 1
+            obj = cls(a, b, dict(extra))
+            snap = repr(obj)
+            label = f"{cname}; {dt.name}; a={a} b={b!r} extra={extra!r}"
+
+            def report(clause, detail):
+                viol.append({"unit": "model dumper with extra_out", "clause": clause, "witness": label,
+                             "w": {"input": f"{cls.__name__}({a}, {b!r}, {extra!r}) with name_mapping({', '.join(kw)})"[:300], "native_outcome": detail[:300]}})
+            try:
+                out1, out2 = dumper(obj), dumper(obj)
+            except Exception as e:  # noqa: BLE001
+                report("dumps", f"raised {type(e).__name__}: {e}")
+                continue
+            want = dict(extra)
+            skip = set(kw.get("skip", ()))
+            for f_, v, dflt in (("a", a, 1), ("b", b, "x")):
+                if f_ not in skip and not (kw.get("omit_default") and v == dflt):
+                    want[f_] = v
+            if out1 != want:
+                report("extras-merged", f"dump gave {out1!r}, expected {want!r}")
+            if out1 is obj.extra or out1 is out2:
+                report("fresh-result", "the dump result is " + ("the mapping stored in the object" if out1 is obj.extra else "shared between two calls"))
+            if repr(obj) != snap:
+                report("modifies-nothing", f"the object changed to {obj!r}")
+    return {"obligations": 0, "discharged": 0, "violations": viol, "solver_time": 0.0,
+            "bounded": [{"unit": "model dumpers with extra_out (extractor / target field)",
+                         "bound": f"{n} dumps: 5 configurations x 3 debug-trail modes x 8 objects (every subset of omitted fields, empty / non-empty extras)"}],
+            "samples": [{"extra_out_dumps": n, "failed": len(viol)}],
+            "assumptions": ["extra_out dumpers are checked only on this bounded family"]}
+
+
 def extra_checks(tier, seed):
     from genprog.check import extra_for_property
-    return [extra_for_property("C20", tier, seed), side_effecting_mappings()]
+    return [extra_for_property("C20", tier, seed), side_effecting_mappings(), extra_out_dumpers()]
